@@ -1,5 +1,5 @@
 """C18 deductive part: call-site conformance of the resampling call and purity of the seed stream (loop with invariant over any n_boot)."""
-from ..contracts.bootstrap import ManySamples, SingleSample
+from ..contracts.bootstrap import BootstrapArguments, ManySamples, SingleSample
 from ..pyvc import verify
 
 
@@ -13,4 +13,11 @@ def run_deductive(rep):
                                ("metrics_on_the_original_data", verify.replace_expr("sampled_data", "data", 1))]),
              (ManySamples(), [("all_samples_from_the_first_derived_seed", verify.replace_expr("rs[i]", "rs[0]")),
                               ("one_sample_too_few", verify.replace_expr("range(n_samples)", "range(n_samples - 1)"))])]
+    for nk in ("none", "int", "float"):
+        for ck in ("none", "empty", "one", "two", "int_entry"):
+            can = []
+            if nk == "int" and ck == "two":
+                can = [("quantile_one_accepted", verify.replace_expr("_ci >= 1", "_ci > 1")), ("zero_resamples_accepted", verify.replace_expr("n_boot < 1", "n_boot < 0")),
+                       ("resampling_ignores_the_callers_seed", verify.replace_expr("random_state=random_state", "random_state=None"))]
+            items.append((BootstrapArguments(nk, ck), can))
     verify.verify_many(rep, items)
